@@ -333,9 +333,10 @@ func c17Run(ctx context.Context, c *c17Case) (rec vtr.Rec) {
 	var tmpd string
 	if c.Kind == "sort" || c.Kind == "cogroup" {
 		tmpd, _ = ioutil.TempDir("", "verifc10")
+		oldTmp := os.Getenv("TMPDIR")
 		os.Setenv("TMPDIR", tmpd)
 		defer func() {
-			os.Unsetenv("TMPDIR")
+			os.Setenv("TMPDIR", oldTmp)
 			os.RemoveAll(tmpd)
 		}()
 	}
